@@ -1,3 +1,76 @@
-From EV Require Import Cluster.
-Theorem placeholder_c01 : True. Proof. exact I. Qed.
-Print Assumptions placeholder_c01.
+(* C01 — clustering results are self-consistent for every algorithm and input.
+   D c f is the metric distance from frame f to frame c (entry f of distance_method(X, X[c]));
+   "distinct points" = zero self-distance and positive distance between different frames.
+   Inv n s says, for the state s = (centre indices, per-frame (label, distance)) over n frames:
+   centres are distinct frames; every label is in [0,k); every distance is the metric distance to
+   the assigned centre; no centre is strictly closer; every centre frame has its own label at 0. *)
+From Coq Require Import List ZArith QArith.
+From EV Require Import Cluster ClusterCase ClusterBase ClusterInv ClusterPam ClusterKC ClusterTop ClusterExample.
+Import ListNotations.
+
+(* the invariant spelt out in the words of the property *)
+Theorem c01_invariant_meaning : forall D n s, Inv D n s ->
+  length (snd s) = n /\ NoDup (fst s) /\ (forall c, In c (fst s) -> (c < n)%nat) /\
+  forall f, (f < n)%nat ->
+    let x := nth f (snd s) (mkfr 0 0 0) in
+    let k := length (fst s) in
+    fid x = f /\ (lab x < k)%nat /\ dist x = D (ctr (fst s) (lab x)) f /\
+    (forall j, (j < k)%nat -> ~ D (ctr (fst s) j) f < dist x) /\
+    (forall j, (j < k)%nat -> ctr (fst s) j = f -> lab x = j /\ dist x == 0).
+Proof. exact inv_meaning. Qed.
+Print Assumptions c01_invariant_meaning.
+
+(* k-centers, cold start: any cluster count and/or radius >= 0, with or without the shortcut *)
+Theorem c01_kcenters_cold : forall D, (forall f, D f f == 0) -> (forall c f, c <> f -> 0 < D c f) ->
+  forall nclu cutoff ti n, ti_ok D ti -> 0 <= cutoff -> (0 < n)%nat -> Inv D n (kcenters_cold D nclu cutoff ti n).
+Proof. exact kcenters_cold_inv. Qed.
+Print Assumptions c01_kcenters_cold.
+
+(* k-centers started from frames of the data *)
+Theorem c01_kcenters_warm : forall D, (forall f, D f f == 0) -> (forall c f, c <> f -> 0 < D c f) ->
+  forall nclu cutoff ti init n, ti_ok D ti -> 0 <= cutoff -> init_ok n init ->
+  Inv D n (kcenters_warm D nclu cutoff ti init n).
+Proof. exact kcenters_warm_inv. Qed.
+Print Assumptions c01_kcenters_warm.
+
+(* nearest-centre assignment (warm starts from centre indices, predict) *)
+Theorem c01_nearest_state : forall D, (forall f, D f f == 0) -> (forall c f, c <> f -> 0 < D c f) ->
+  forall n cs, cs <> [] -> NoDup cs -> (forall c, In c cs -> (c < n)%nat) -> Inv D n (nearest_state D cs n).
+Proof. exact nearest_state_inv. Qed.
+Print Assumptions c01_nearest_state.
+
+(* one PAM proposal, accepted or rejected, any proposal frame (inside or outside the cluster,
+   the current medoid, another cluster's medoid) *)
+Theorem c01_pam_update : forall D, (forall f, D f f == 0) -> (forall c f, c <> f -> 0 < D c f) ->
+  forall n s cid p, Inv D n s -> (cid < length (fst s))%nat -> (p < n)%nat -> Inv D n (pam_update D s cid p).
+Proof. exact pam_update_inv. Qed.
+Print Assumptions c01_pam_update.
+
+(* k-medoids: any number of sweeps with any proposals, from any consistent state *)
+Theorem c01_kmedoids : forall D, (forall f, D f f == 0) -> (forall c f, c <> f -> 0 < D c f) ->
+  forall n sweeps s, Inv D n s -> sweeps_ok n (length (fst s)) sweeps ->
+  Inv D n (kmedoids D s sweeps) /\ length (fst (kmedoids D s sweeps)) = length (fst s) /\
+  sumsq (snd (kmedoids D s sweeps)) <= sumsq (snd s).
+Proof. exact kmedoids_inv. Qed.
+Print Assumptions c01_kmedoids.
+
+(* k-hybrid = k-centers followed by the sweeps *)
+Theorem c01_hybrid : forall D, (forall f, D f f == 0) -> (forall c f, c <> f -> 0 < D c f) ->
+  forall nclu cutoff n sweeps, 0 <= cutoff -> (0 < n)%nat ->
+  sweeps_ok n (length (fst (kcenters_cold D nclu cutoff false n))) sweeps ->
+  Inv D n (hybrid_cold D nclu cutoff n sweeps).
+Proof. exact hybrid_cold_inv. Qed.
+Print Assumptions c01_hybrid.
+
+(* the distance matrix of a case meets the hypotheses whenever the executable check accepts it *)
+Theorem c01_checked_matrix_is_valid : forall m n, valid_matrix m n = true ->
+  (forall f, Dext m n f f == 0) /\ (forall c f, c <> f -> 0 < Dext m n c f).
+Proof. exact valid_matrix_sound. Qed.
+Print Assumptions c01_checked_matrix_is_valid.
+
+Example c01_example :
+  Inv (Dline pos_id) 6 (kcenters_cold (Dline pos_id) (Some 3%nat) 0 true 6) /\
+  st_show (kcenters_cold (Dline pos_id) (Some 3%nat) 0 true 6) = ([0; 5; 2]%nat, [0; 0; 2; 2; 1; 1]%nat, [0; 1; 0; 1; 1; 0]) /\
+  st_show (hybrid_cold (Dline pos_id) (Some 2%nat) 0 6 [[1; 4]; [0; 3]]%nat) = ([1; 4]%nat, [0; 0; 0; 1; 1; 1]%nat, [1; 0; 1; 1; 0; 1]).
+Proof. exact line_run_consistent. Qed.
+Print Assumptions c01_example.
